@@ -28,6 +28,11 @@ def gen_cases(rng, tier):
     cases += [coregen.gen_structured(rng) for _ in range(24 if tier == 'quick' else 400)]      # rarely met shapes (coregen.gen_structured)
     for c in cases:
         c['obs'] = ['plain', 'plain_dur_first']
+    # the structured shapes and a few fixed ones also unrolled: the listing of the unrolled circuit must be causal too
+    extra = [coregen.gen_structured(rng) for _ in range(16 if tier == 'quick' else 200)] + coregen.fixed_structured()
+    for c in extra:
+        c['obs'] = ['plain', 'plain_dur_first', 'unrolled']
+    cases += extra
     # chains at the documented graph depth limit (only the number of listed operations is observed)
     cases.append({'k': 'deep', 'n': 4999})
     if tier == 'thorough':
